@@ -912,3 +912,39 @@ mod tests {
 		assert!(res.is_none());
 	}
 }
+
+/// Outcome of [`verif_wire_roundtrip`]: what [`read`] decoded, re-encoded the way
+/// `PeerManager` encodes outbound messages (2-byte big-endian type id, then the payload).
+///
+/// Verification hook H2 (cargo feature `_verif_hooks`): add-only, used solely by the external
+/// model-checking harness, no effect on any other code.
+#[cfg(feature = "_verif_hooks")]
+pub struct VerifWireRoundtrip {
+	/// [`Type::type_id`] of the decoded [`Message`].
+	pub type_id: u16,
+	/// Whether [`read`] returned `Message::Unknown` (no built-in or custom decoder for the type).
+	pub unknown: bool,
+	/// `Message::is_even` (an unknown even message makes `PeerManager` disconnect the peer).
+	pub is_even: bool,
+	/// The type id followed by `Message::write` of the decoded message.
+	pub reencoded: crate::prelude::Vec<u8>,
+}
+
+/// Verification hook H2 (cargo feature `_verif_hooks`): public wrapper around the `pub(crate)`
+/// [`read`] (type-id dispatch, no custom message reader, exactly as `PeerManager` calls it with an
+/// `IgnoringMessageHandler`) followed by `Message::type_id` / `Message::write`.
+#[cfg(feature = "_verif_hooks")]
+pub fn verif_wire_roundtrip<R: LengthLimitedRead>(
+	buffer: &mut R,
+) -> Result<VerifWireRoundtrip, (msgs::DecodeError, Option<u16>)> {
+	let message = read(buffer, &crate::ln::peer_handler::IgnoringMessageHandler {})?;
+	let mut reencoded = crate::util::ser::VecWriter(crate::prelude::Vec::new());
+	message.type_id().write(&mut reencoded).expect("in-memory writes cannot fail");
+	message.write(&mut reencoded).expect("in-memory writes cannot fail");
+	Ok(VerifWireRoundtrip {
+		type_id: message.type_id(),
+		unknown: matches!(message, Message::Unknown(_)),
+		is_even: message.is_even(),
+		reencoded: reencoded.0,
+	})
+}
